@@ -206,6 +206,14 @@ def run_stepper(ctx, nruns):
                       {"run": runs[last], "harness_input": stepper_text(runs[last]), "log_tail": out[-800:]})
         return 0, 0, 0
     cases = []
+    odd = set()
+    for i, ot in enumerate(optext):
+        # "?" = an exception escaped from an action other than insert / extend-from-secondaries
+        if "?" in ot:
+            k = ot.index("?")
+            odd.add(i)
+            optext[i] = ot[:k]
+            dumps[i] = dumps[i][:k]
     for run, ot in zip(runs, optext):
         cases.append({"n": run["n"], "cap": run["cap"], "order": run["order"], "nev": 2,
                       "ops": [gen.parse_op_text(t, run["n"]) for t in ot]})
@@ -233,6 +241,11 @@ def run_stepper(ctx, nruns):
         if len(ctx.samples) < 5 and glines[i]:
             ctx.sample({"stepper_run": stepper_text(run).splitlines(), "failed_interactions": len(glines[i]),
                         "first_failed(op slot status nsec E_pre E_post deposit step_length moved)": glines[i][0]})
+        if i in odd and nbad < 2:
+            nbad += 1
+            ctx.violation("property", "an exception escaped from an unexpected action during a starved Stepper run",
+                          {"run": run, "harness_input": stepper_text(run), "ops_before": optext[i][-6:]})
+            continue
         if diff is not None or orc is not None or gbad is not None or i in bad_result:
             nbad += 1
             if nbad > 2:
